@@ -265,7 +265,7 @@ def plan_generate(ctx, rnd, cid0):
               {"what": "dsa-domain", "bits": 1024, "kid": rnd.choice(["d1024", "d512"]), "corr": [], "tape": rnd.choice(["order", "order-2", "ones", "zeros", "one"])},
               {"what": "ecc", "curve": rnd.choice(["P-192", "P-224", "P-256"]), "tape": "order-1"},
               {"what": "ecc", "curve": rnd.choice(["P-192", "P-224", "P-256"]), "tape": rnd.choice(["order", "ones", "zeros", "one", "order-2"])}]
-        g += [{"what": "elgamal", "bits": rnd.choice([161, 168, 176, 184, 192])}]
+        g += [{"what": "elgamal", "bits": rnd.choice([161, 168, 176, 184, 192])}, {"what": "elgamal", "bits": rnd.choice([161, 168, 176]), "tape": rnd.choice(["last-zeros", "last-zeros", "last-ones"])}]
         curves = [rnd.choice(["P-192", "P-224"]), "P-256", "P-521" if ctx.seed % 4 == 1 else "P-384", "Ed25519", "Curve25519"]
         if ctx.seed % 3 == 0:                                   # the two long chains (30 s / 20 s of TLC) in one run out of three
             curves.append(["Ed448", "Curve448"][(ctx.seed // 3) % 2])
@@ -284,10 +284,13 @@ def plan_generate(ctx, rnd, cid0):
         g += [{"what": "dsa-domain", "bits": 1024, "kid": kid, "corr": [], "tape": tp} for kid in ("d1024", "d512") for tp in ("order-1", "order", "order-2", "ones", "zeros", "one")]
         g += [{"what": "ecc", "curve": c, "tape": tp} for c in ("P-192", "P-256", "P-384") for tp in ("order-1", "order", "order-2", "ones", "zeros", "one")]
         g += [{"what": "elgamal", "bits": b} for b in (rnd.choice([161, 176, 192]), 256, rnd.choice([224, 320, 384]))]
+        g += [{"what": "elgamal", "bits": 168, "tape": tp} for tp in ("last-zeros", "last-ones")]
         for c in NIST + ["Ed25519", "Ed448", "Curve25519", "Curve448"]:
             g += [{"what": "ecc", "curve": c} for _ in range(1 if c in ("P-521", "Ed448", "Curve448") else 3)]
     # entropy chosen so that the first two prime candidates give a private exponent below 2^(nlen/2) (FIPS 186-4 B.3.1 (3): new primes are to be drawn)
     g.append({"what": "rsa", "bits": 1024, "e": 65537, "tape": "small-d"})
+    # entropy chosen so that the first candidates for p and q are the primes on either side of 3 * 2^510, 1104 apart (B.3.3 (5.4): another q is to be drawn)
+    g.append({"what": "rsa", "bits": 1024, "e": 65537, "tape": "close-primes"})
     for i, it in enumerate(g):
         it["cid"] = cid0 + i + 1
     return g
